@@ -71,7 +71,7 @@ REQUIRED = {
     'wellformed': 150, 'ranks': 150, 'o1-model': 40, 'o1-noise-exact': 40,
     'noise-bound': 40, 'additive-exact': 10, 'o2-first-order': 40,
     'o2-pair-terms': 40, 'o2-dense': 30, 'o2-dense-noise': 30,
-    'o2-vs-call': 30,
+    'o2-vs-call': 30, 'object-history': 100,
     'func-normal-eq': 50, 'func-const': 50, 'func-layout': 30,
     'func-interp': 50, 'func-wellformed': 50,
 }
@@ -500,6 +500,29 @@ def run_anova(case, ctx, teneva):
     ctx.close('call-model', one, T0.reshape(-1)[sel[0]],
         np.reshape(tol_call, -1)[sel[0]], 'ANOVA.__call__ on one multi-index')
 
+    # ---- history on one fitted object: repeated cores() calls must agree and
+    # must not change the model (the cores are a pure function of the model)
+    if N <= 3000:
+        try:
+            reps = [A.cores(r, 0.) for _ in range(3)]
+        except Exception as ex:
+            reps = None
+            ctx.viol('object-history', f'repeated ANOVA.cores(r={r}, noise=0) '
+                f'raised {type(ex).__name__}: {ex}',
+                kf='svd-zero-matrix-nan' if order == 2 and not np.any(T0)
+                else None)
+        if reps is not None:
+            same = all(len(R) == len(reps[0]) and all(a.shape == b.shape
+                and np.array_equal(a, b, equal_nan=True) for a, b in
+                zip(R, reps[0])) for R in reps[1:])
+            ctx.check('object-history', same, 'ANOVA.cores(noise=0) called '
+                'three times on one fitted object returned different tensors',
+                order=order, r=r, f0=float(M.f0))
+            call2 = np.asarray(A(Ival[sel].astype(idt)), dtype=float)
+            ctx.check('object-history', np.array_equal(call, call2,
+                equal_nan=True) and A.f0 == A.f0, 'ANOVA.__call__ changed '
+                'after cores() was called (the fitted model was modified)')
+
     # ---- the TT
     mode = case['seedmode']
     if mode == 'audit':
@@ -872,6 +895,11 @@ def run_func(case, ctx, teneva):
 
     # ---- cores(e=None): the layout
     Yn = Af.cores(e=None)
+    Yn2 = Af.cores(e=None)
+    ctx.check('func-object-history', len(Yn) == len(Yn2) and all(
+        np.array_equal(a, b, equal_nan=True) for a, b in zip(Yn, Yn2)),
+        'ANOVA_func.cores(e=None) called twice on one object returned '
+        'different tensors')
     why = ref.wellformed(Yn, [n] * d, finite=True)
     if ctx.check('func-wellformed', why is None,
             f'cores(e=None) malformed: {why}'):
